@@ -50,9 +50,13 @@ type GroupDom struct {
 	Notes  []string
 	// DigitBound: assumed range of signed radix-16 digits (established separately)
 	Prims map[string]bool
+	// NafWidth: digit-name prefix ("a.n") -> width the recoding was asked for
+	NafWidth map[string]int
+	// WidthChecks counts selector calls whose table size was checked against the digit width
+	WidthChecks int
 }
 
-func NewGroupDom() *GroupDom { return &GroupDom{R: poly.NewRing(nil)} }
+func NewGroupDom() *GroupDom { return &GroupDom{R: poly.NewRing(nil), NafWidth: map[string]int{}} }
 
 func (d *GroupDom) Name() string { return "group expressions (free abelian group over point symbols)" }
 
@@ -158,8 +162,10 @@ func (d *GroupDom) Convert(in *Interp, x Val, from, to types.Type, pos ssa.Instr
 	in.Undecided(pos, "group domain: conversion of %T", x)
 	return nil
 }
-func (d *GroupDom) Branch(in *Interp, cond Val, site *ssa.If) (bool, bool, bool) { return false, false, false }
-func (d *GroupDom) Assume(in *Interp, cond Val, truth bool, site *ssa.If)         {}
+func (d *GroupDom) Branch(in *Interp, cond Val, site *ssa.If) (bool, bool, bool) {
+	return false, false, false
+}
+func (d *GroupDom) Assume(in *Interp, cond Val, truth bool, site *ssa.If) {}
 
 func (d *GroupDom) GlobalValue(in *Interp, g *ssa.Global) (Val, bool) {
 	if g.Pkg != in.P.Root {
@@ -254,6 +260,11 @@ func (d *GroupDom) Call(in *Interp, site ssa.Instruction, fn *ssa.Function, args
 		if ptr.Obj != nil {
 			nm = ptr.Obj.Name
 		}
+		w, ok := args[1].(Int)
+		if !ok || !w.V.IsInt64() || w.V.Int64() < 2 || w.V.Int64() > 8 {
+			in.Undecided(site, "NAF recoding with a width that is not a constant in 2…8: %v", args[1])
+		}
+		d.NafWidth[nm+".n"] = int(w.V.Int64())
 		a := &Agg{Elems: make([]Val, 256)}
 		for i := range a.Elems {
 			a.Elems[i] = d.Digit(fmt.Sprintf("%s.n%d", nm, i))
@@ -268,6 +279,22 @@ func (d *GroupDom) Call(in *Interp, site ssa.Instruction, fn *ssa.Function, args
 		// provided points[i] = (2i+1)·points[0]
 		tab := in.Load(site, args[0])
 		arr := tab.(*Agg).Elems[0].(*Agg)
+		// the digit is ± one NAF digit of width w: odd, |x| ≤ 2^(w−1)−1, so the index x/2 needs 2^(w−2) entries
+		for _, v := range dv.P.Vars() {
+			w := 0
+			for pre, pw := range d.NafWidth {
+				if strings.HasPrefix(v, pre) {
+					w = pw
+				}
+			}
+			if w == 0 {
+				in.Undecided(site, "%s indexed by %s, which is not a NAF digit of known width", name, v)
+			}
+			if need := 1 << uint(w-2); len(arr.Elems) < need {
+				in.Undecided(site, "%s has %d entries but is indexed by width-%d NAF digits (odd, up to %d): it needs %d", name, len(arr.Elems), w, (1<<uint(w-1))-1, need)
+			}
+			d.WidthChecks++
+		}
 		base, ok := arr.Elems[0].(*GV)
 		if !ok || base.Invalid {
 			in.Undecided(site, "%s on a table that was never built", name)
